@@ -131,6 +131,29 @@ fn history_case(front: Front, reg: Reg, rng: &mut Prng, col: &mut Collector) {
     // (also long silences: connectivity counts at and beyond the 16-bit limit)
     let start_adr = *rng.pick(&[0u32, 0, 62, 63, 64, 94, 95, 96, 127, 65_534, 65_535, 65_536, 70_000, 1_000_000]);
     let dr = *rng.pick(&crate::c12::uplink_drs(reg));
+    // one session in twelve has a key of sixteen equal octets (all 0x00 or all 0xFF: any sixteen octets are a key)
+    let blank: Option<(bool, bool, u8)> = if rng.chance(1, 12) { Some((rng.bool(), rng.bool(), if rng.bool() { 0x00 } else { 0xFF })) } else { None };
+    let blank = blank.map(|(n, a, f)| if !n && !a { (true, false, f) } else { (n, a, f) });
+    let set_keys = move |sj: &mut J| {
+        if let Some((n, a, f)) = blank {
+            if n {
+                sj["nwkskey"] = json!(vec![f; 16]);
+            }
+            if a {
+                sj["appskey"] = json!(vec![f; 16]);
+            }
+        }
+    };
+    let fix_net = move |net: &mut Net| {
+        if let Some((n, a, f)) = blank {
+            if n {
+                net.nwk = [f; 16];
+            }
+            if a {
+                net.app = [f; 16];
+            }
+        }
+    };
     let mk = |r: &mut Prng| -> Option<(Dev, Net)> {
         let opts = DevOpts { rng_seed: Some(seed), ..Default::default() };
         abp_dev(front, reg, r, &opts, |sj| {
@@ -140,11 +163,31 @@ fn history_case(front: Front, reg: Reg, rng: &mut Prng, col: &mut Collector) {
                 sj["fcnt_down"] = json!(d);
             }
             sj["adr_ack_cnt"] = json!(start_adr);
+            set_keys(sj);
         })
         .ok()
+        .map(|(d, mut n)| {
+            fix_net(&mut n);
+            (d, n)
+        })
     };
+    if blank.is_some() {
+        col.event("sessions_with_blank_keys");
+    }
     let mut r0 = Prng::new(seed);
     let Some((mut a, net)) = mk(&mut r0) else {
+        if blank.is_some() {
+            // the counters aside: does a session with such a key come back at all?
+            let opts = DevOpts { rng_seed: Some(seed), ..Default::default() };
+            let keyed: Result<(Dev, Net), String> = abp_dev(front, reg, &mut Prng::new(seed), &opts, |sj| set_keys(sj));
+            if let Err(e) = keyed {
+                let plain_ok = abp_dev::<20, 0>(front, reg, &mut Prng::new(seed), &opts, |_| {}).is_ok();
+                if plain_ok {
+                    col.violation("C20|restore-fails|key-of-equal-octets", "a session whose key consists of sixteen equal octets, in the crate's own serialised form, does not deserialise", json!({"front": front.name(), "region": reg.name(), "keys": format!("{:?}", blank), "error": e}));
+                    return;
+                }
+            }
+        }
         // is it the harness' edit of the counters, or does not even the crate's own document of a
         // freshly activated session come back?
         let opts = DevOpts { rng_seed: Some(seed), ..Default::default() };
